@@ -405,6 +405,7 @@ class Ref:
         if o == 'floor' and is_num(v): return rt.fround('floor', v, 32)
         if o == 'ceil' and is_num(v): return rt.fround('ceil', v, 32)
         if o == 'isnil_val': return v is None
+        if o == 'typename': return b'ARRAY' if isinstance(v, Arr) else b'SCALAR' if is_num(v) else b'BOOL' if is_bool(v) else b'STRING' if isinstance(v, bytes) else b'CODE' if isinstance(v, Code) else b'OTHER'
         if o == 'count' and isinstance(v, HMap): return float(len(v.items))
         if o == 'keys' and isinstance(v, HMap): return ('keyset', [k for k, x in v.items])
         if o == '+' and isinstance(v, HMap): return HMap(v.items)
